@@ -162,6 +162,11 @@ int MPI_File_read_shared(MPI_File, void*, int, MPI_Datatype, MPI_Status*);
 int MPI_File_write_shared(MPI_File, const void*, int, MPI_Datatype, MPI_Status*);
 int MPI_File_read_ordered(MPI_File, void*, int, MPI_Datatype, MPI_Status*);
 int MPI_File_write_ordered(MPI_File, const void*, int, MPI_Datatype, MPI_Status*);
+int MPI_File_write_at(MPI_File, MPI_Offset, const void*, int, MPI_Datatype, MPI_Status*);
+int MPI_File_write_at_all(MPI_File, MPI_Offset, const void*, int, MPI_Datatype, MPI_Status*);
+int MPI_File_read_at(MPI_File, MPI_Offset, void*, int, MPI_Datatype, MPI_Status*);
+int MPI_File_read_at_all(MPI_File, MPI_Offset, void*, int, MPI_Datatype, MPI_Status*);
+int MPI_File_get_size(MPI_File, MPI_Offset*);
 
 #ifdef __cplusplus
 }
